@@ -113,6 +113,10 @@ func VerifSegLoop() {
 	L := zzverif.Choose("L", maxL+1)
 	zzverif.Assume(L <= 3*S+1)
 	src := &vReader{data: zzverif.Bytes("src", L), eofWithData: zzverif.Bool("eof_with_data"), failAt: -1}
+	if zzverif.Thorough() {
+		// longer inputs: the first four reads split the data arbitrarily, later reads return all they can
+		src.maxSplit = 4
+	}
 	var calls []vSegCall
 	rec := func(out io.Writer, data []byte, num uint32, last bool) error {
 		calls = append(calls, vSegCall{data: append([]byte{}, data...), num: num, last: last})
